@@ -3,6 +3,7 @@
    `callRhs` (with the free parameters set) as the specification value. -/
 import Driver.CoreWire
 import MxlVerif.Model.C07
+import MxlVerif.Model.C07Expr
 open Lean Mxl Mxl.Wire Mxl.C07
 namespace Driver.H_c07
 
@@ -35,7 +36,27 @@ def jState (j : Json) : Except String (Rat × List Rat × List Rat) := do
   | [t, xs, ps] => pure (← jRat t, ← jList jRat xs, ← jList jRat ps)
   | _ => .error s!"bad state {j.compress}"
 
+/-- request `{"op": "c07", "exprLines": [[target, text], …], "jl": bool, "env": [[name, value], …]}`: the assignment
+    lines of a generated function read by the Lean reader (`Mxl.C07Expr.runLines`) -/
+def handleExpr (j : Json) : Except String Json := do
+  let lines ← jList (fun l => do
+    let a ← jArr l
+    match a with
+    | [k, t] => pure ((← jStr k), (← jStr t))
+    | _ => throw "line") (← field j "exprLines")
+  let jl ← (match (fieldD j "jl" (.bool false)) with | .bool b => pure b | _ => throw "jl")
+  let py ← (match (fieldD j "py" (.bool false)) with | .bool b => pure b | _ => throw "py")
+  let env ← jAssoc jRat (fieldD j "env" (.arr #[]))
+  match Mxl.C07Expr.runLines jl py lines env.reverse [] with
+  | .error (.unsupported k) => pure (Json.mkObj [("unsupported", .str k)])
+  | .error (.noValue k) => pure (Json.mkObj [("noValue", .str k)])
+  | .ok (e, flags) =>
+    pure (Json.mkObj [("values", .arr ((e.take lines.length).reverse.map fun kv => Json.arr #[.str kv.1, ratJ kv.2]).toArray),
+                      ("reprint", .arr (flags.map fun f => Json.bool f.1).toArray),
+                      ("treeValue", .arr (flags.map fun f => Json.bool f.2).toArray)])
+
 def handle (j : Json) : Except String Json := do
+  if (j.getObjVal? "exprLines").isOk then return (← handleExpr j)
   let c ← jContent (← field j "content")
   let bad ← jList jStr (fieldD j "bad" (.arr #[]))
   let free ← jList jStr (fieldD j "free" (.arr #[]))
